@@ -1,8 +1,8 @@
 (** * C16 property theorems — statements only; proofs live in C16/AllocatorProofs.v
     (and C02/TrackInitProofs.v for the shared capacity theorems). *)
 From Coq Require Import List Arith Bool.
-From Celer Require Import C16.Allocator C16.AllocatorProofs C16.Examples.
-From Celer Require Import C02.TrackInit C02.InvA C02.InvB C02.TrackInitProofs.
+From Celer Require Import C16.Allocator C16.AllocatorProofs C16.Examples C16.StepStack C16.StepStackProofs C16.StepExamples.
+From Celer Require Import C02.TrackInit C02.InvA C02.InvB C02.TrackInitProofs C02.Refine C02.ResetRefine.
 Import ListNotations.
 
 Theorem C16_alloc_fail_noop : forall a n,
@@ -66,3 +66,70 @@ Theorem C16_reset_then_run_ok : forall cfg ops s s1 ops' s2,
   InvA cfg s2 /\ InvB cfg s2.
 Proof. exact reset_then_run_ok. Qed.
 Print Assumptions C16_reset_then_run_ok.
+
+(** the capacity rule of the secondary stack (PhysicsData.hh resize,
+    PhysicsParams.cc): factor p/q must be positive (RuntimeError otherwise);
+    capacity = floor(slots * p / q); it is 0 exactly when slots * p < q *)
+Theorem C16_secondary_capacity_floor : forall slots p q,
+  0 < q ->
+  (secondary_capacity slots p q = None <-> p = 0) /\
+  (forall c, secondary_capacity slots p q = Some c ->
+     0 < p /\ q * c <= slots * p < q * (c + 1) /\ (c = 0 <-> slots * p < q)).
+Proof. exact secondary_capacity_floor. Qed.
+Print Assumptions C16_secondary_capacity_floor.
+
+(** the per-step clear (PreStepExecutor thread 0) makes the allocations of
+    different steps independent: whatever earlier steps left in the stack
+    ([a], any size, even an overflowed one) and in the slots' spans, the
+    allocator size, the failure flags and the spans of the slots taking part
+    in a step are those of the same step on any other stack of that capacity,
+    e.g. a freshly resized one *)
+Theorem C16_step_independent : forall rs a a' sps sps',
+  rs <> [] -> a_cap a = a_cap a' -> length sps = length rs -> length sps' = length rs ->
+  let r := step_stack a sps rs in
+  let r' := step_stack a' sps' rs in
+  a_size (fst (fst r)) = a_size (fst (fst r')) /\ snd r = snd r' /\
+  live_spans rs (snd (fst r)) = live_spans rs (snd (fst r')).
+Proof. exact step_independent. Qed.
+Print Assumptions C16_step_independent.
+
+(** within a step (for ANY previous stack contents): size <= capacity, capacity
+    unchanged, the spans of the participating slots tile [0, size) in slot order
+    with the requested lengths and intact items, a failure only for an active
+    slot that asked for secondaries *)
+Theorem C16_step_spans_ok : forall rs a sps,
+  rs <> [] -> length sps = length rs ->
+  let r := step_stack a sps rs in
+  a_size (fst (fst r)) <= a_cap a /\ a_cap (fst (fst r)) = a_cap a /\
+  spans_ok 0 (snd (fst r)) rs (a_size (fst (fst r))) (a_store (fst (fst r))) /\
+  Forall2 (fun (f : bool) q => f = true -> r_kind q = SActive /\ 0 < r_count q) (snd r) rs.
+Proof. exact step_spans_ok. Qed.
+Print Assumptions C16_step_spans_ok.
+
+(** ... hence pairwise disjoint and inside [lo, hi) *)
+Theorem C16_spans_ok_disjoint : forall sps rs lo hi st i j oi ci oj cj,
+  spans_ok lo sps rs hi st -> i < j ->
+  r_kind (nth i rs (mkReq SInactive 0 0)) <> SInactive -> r_kind (nth j rs (mkReq SInactive 0 0)) <> SInactive ->
+  nth i sps None = Some (oi, ci) -> nth j sps None = Some (oj, cj) ->
+  lo <= oi /\ oi + ci <= oj /\ oj + cj <= hi.
+Proof. exact spans_ok_disjoint. Qed.
+Print Assumptions C16_spans_ok_disjoint.
+
+(** reset_then_run_ok as a refinement (coq/C02/Refine.v, ResetRefine.v): from
+    ANY reachable state (in particular right after a capacity error), after
+    [reset] every continuation that follows the Stepper protocol
+    ([stepper_protocol]: initialize-tracks .. extend-from-secondaries only after
+    the primaries action has run since the reset) yields op by op the same
+    result kinds and observably equal states ([state_rel false]: stack,
+    vacancies, counters, track counters, statuses, tracks of occupied slots,
+    secondaries at extend-from-secondaries) as on the freshly constructed state
+    with the same track counters; stale slot data and the stale parents array
+    are never observed.  With zeroed counters that state is [init_state]. *)
+Theorem C16_reset_refines_fresh : forall cfg ops s s1 ops',
+  exec cfg (init_state cfg) ops = Some s -> reset cfg s = Ok s1 ->
+  stepper_protocol false ops' = true ->
+  state_rel false s1 (fresh_with cfg (next_id s)) /\
+  Forall2 res_obs (run cfg s1 ops') (run cfg (fresh_with cfg (next_id s)) ops') /\
+  fresh_with cfg (repeat 0 (n_events cfg)) = init_state cfg.
+Proof. exact reset_refines_fresh. Qed.
+Print Assumptions C16_reset_refines_fresh.
